@@ -149,6 +149,9 @@ def shapes(tier):
              paths=["/abc", "/a/b", "/", "/ab", "abc/", "/a/abc/"]),
         dict(tag="deep-hook", rules=[("a", "b"), (W, "b")], hooks=[("a",)], flavour="{}",
              paths=["/a/b", "/c/b", "/a", "/b", "/a/b/", "/a/c"]),
+        # two literal siblings sharing text past the branch point (a split node that holds no route) + a wildcard sibling
+        dict(tag="split-wild", rules=[("abc",), ("abd",), (W,)], hooks=[], flavour=":",
+             paths=["/ab", "/abc", "/abd", "/a", "/abe", "/x"]),
     ]
     if tier == "thorough":
         out += [
